@@ -266,14 +266,15 @@ def m_ref(col, text, named, located, phrase=None):
     return f
 
 
-def m_ref_dup(col):
-    """${z} where z names two questions in different sections"""
+def m_ref_dup(col, copies=2):
+    """${z} where z names `copies` questions in different sections"""
     def f(rows, nodes, i, ch):
         k = _row_of(rows, i)
         if not _col_ok(col, rows[k]):
             raise Skip
         rows.insert(0, {"type": "text", "name": "z", "label": "z"})
-        rows.extend([{"type": "begin group", "name": "zg", "label": "zg"}, {"type": "text", "name": "z", "label": "z"}, {"type": "end group"}])
+        for c in range(1, copies):
+            rows.extend([{"type": "begin group", "name": f"zg{c}", "label": "zg"}, {"type": "text", "name": "z", "label": "z"}, {"type": "end group"}])
         rows[k + 1][col] = "${z} = 1"
         return E(k + 1, False, ["z"])
     return f
@@ -432,6 +433,10 @@ for _c in REF_COLS_ALL:
     CATALOGUE[f"ref-space:{_c}"] = m_ref(_c, "${a b}", (), True)
     CATALOGUE[f"ref-nested:{_c}"] = m_ref(_c, "${a${b}}", (), True)
     CATALOGUE[f"ref-dup:{_c}"] = m_ref_dup(_c)
+    CATALOGUE[f"ref-dup3:{_c}"] = m_ref_dup(_c, 3)
+    if _c in ("relevant", "label", "calculation"):
+        CATALOGUE[f"ref-dup4:{_c}"] = m_ref_dup(_c, 4)
+        CATALOGUE[f"ref-dup5:{_c}"] = m_ref_dup(_c, 5)
 
 HEADER_MUTS = ["dup-header", "dup-header-trailing-space", "dup-header-case", "alias-clash", "no-type-header", "no-name-header",
                "no-survey", "omit-id+key", "dup-choices-header", "dup-settings-header"]
